@@ -156,6 +156,6 @@ var options = ev.NewCheck("C14", "option-sets",
 	"rapid: C04 streams and chunkings with extra F8 / FE / sysex density; each stream is run on fresh testdrv loopbacks under all 8 combinations of UseActiveSense / UseTimeCode / UseSysEx; oracle (metamorphic): run(opts) == run(all on) minus the classes whose option is off, equal in content, order and time stamp (relative to a sync message); non-trivial = stream has active sense, timing clock and sysex and a channel message under running status next to (or around) a filtered byte; distinct by case hash",
 	genCase, run)
 
-func TestPropOptionSets(t *testing.T) { options.Rapid(t, 500, 30000) }
+func TestPropOptionSets(t *testing.T) { options.Rapid(t, 1000, 30000) }
 
 func TestReplay(t *testing.T) { ev.ReplayAll(t) }
